@@ -77,6 +77,12 @@ func (cln *CLNClient) ConnectionStatus() error {
 }
 
 func (cln *CLNClient) CreateInvoice(amount uint64) (Invoice, error) {
+	// the amount in msat must not wrap around: the node would create an
+	// invoice for less than the amount the quote is for
+	if amount > math.MaxUint64/1000 {
+		return Invoice{}, errors.New("amount too large")
+	}
+
 	r := rand.New(rand.NewPCG(uint64(time.Now().UnixMicro()), uint64(time.Now().UnixMilli())))
 
 	body := map[string]interface{}{
